@@ -33,7 +33,8 @@ KINDS = ["sb21", "sb20", "advp", "sb21cfg", "mbi_class", "mbi_cfg", "otfad", "ie
          "sb21cfg_same", "mbi_cfg_same",  # *_same: one configuration dictionary object reused for every build of that kind
          "hab_same",                       # every HAB build of the history in the same workspace folder (rebuild)
          "mbi_cfg_sameobj",                # one MBI builder object re-configured (load_from_config) for every build of that kind
-         "sb1", "bootimgrt", "dice"]       # SB 1.x DEK/MAC, legacy RT boot image AEAD nonce, DICE attestation challenge
+         "sb1", "bootimgrt", "dice",       # SB 1.x DEK/MAC, legacy RT boot image AEAD nonce, DICE attestation challenge
+         "bee_cfg_both"]                   # BEE by configuration, both engines generated: two headers out of one call
 CHILD = os.path.join(os.path.dirname(os.path.abspath(__file__)), "c17_child.py")
 
 
@@ -104,6 +105,11 @@ def judge(hist: list, a: dict, b: dict) -> dict:
                     viol.append(("C17.not-random", f"{kind}.{fname}", f"history {hist}: same value {hx[:16]}.. under two generator seeds"))
             facts.append(f"{kind}.{fname}:{origin}")
             key = val
+            if key in seen_vals and seen_vals[key][0] == k and seen_vals[key][2] != fname:
+                # two independent self-chosen fields of ONE build (e.g. the two engine headers of a BEE image) with one value
+                o = seen_vals[key]
+                viol.append(("C17.shared-secret", f"{kind}.{o[2]}=={kind}.{fname}:same-build",
+                             f"history {hist}: artifact #{k}: fields {o[2]} and {fname} share {hx[:16]}.."))
             if key in seen_vals and seen_vals[key][0] != k:
                 o = seen_vals[key]
                 viol.append(("C17.shared-secret", f"{o[1]}.{o[2]}=={kind}.{fname}",
@@ -146,11 +152,11 @@ def w_history(hist: Any) -> dict:
     return res
 
 
-CORE_KINDS = ["sb21", "sb20", "advp", "mbi_class", "mbi_cfg", "otfad", "iee", "bee", "hexstr", "sb1", "bootimgrt", "dice"]
+CORE_KINDS = ["sb21", "sb20", "advp", "mbi_class", "mbi_cfg", "otfad", "iee", "bee", "hexstr", "sb1", "bootimgrt", "dice", "bee_cfg_both"]
 
 
 def histories(tier: str) -> list:
-    """quick: every single construction, every ordered pair over the twelve class-constructed kinds, and for the four
+    """quick: every single construction, every ordered pair over the thirteen fast kinds, and for the four
     config/CLI-driven kinds (slow: 1-4 s each) the pairs with themselves, with their sibling and with three core kinds;
     thorough: all sequences up to length 2 over all kinds, all sequences of length 3 over the class-constructed kinds, and
     the sandwiches X, y, X for the state-carrying kinds X and every kind y."""
@@ -210,7 +216,7 @@ def run(ctx: core.Ctx) -> None:
     ctx.cov["traces_validated_against_impl"] = len(hs)
     ctx.cov["history_length_bound"] = 2 if ctx.tier == "quick" else 3
     ctx.cov["kinds"] = KINDS
-    ctx.rule = ("all sequences with repetition of artifact constructions (18 kinds: SB1.x, SB2.0, SB2.1 by class and by config, advanced "
+    ctx.rule = ("all sequences with repetition of artifact constructions (19 kinds: SB1.x, SB2.0, SB2.1 by class and by config, advanced "
                 "params, encrypted MBI by class and by config, OTFAD, IEE, BEE blobs, load_hex_string(None), HAB encrypted via "
                 "the CLI) up to the length bound, each in a fresh interpreter under a counting RNG installed before import, run "
                 "under two generator seeds; distinct = distinct histories; every history is an implementation run")
